@@ -3,9 +3,11 @@ whole-analysis soundness with call-site sites and duplicated controlled triggers
 functions: (a) every contract the real tool infers is accepted by the model's inference, (b) the real contract map
 against run-time (argument non-nil, result nil?) probes, (c) the call-site bookkeeping (real triggers == model),
 (d) the statement on (real diagnostics, real panics) for programs that call contracted functions."""
+import os
 import random
 
 from . import common
+from . import wholetool as wt
 from . import progfuzz as PF
 from . import progcorpus as PC
 from . import c01
@@ -24,7 +26,7 @@ def run(ctx):
 
     corpus = PC.c20_cases()
     rc = PF.run_suite(ctx, corpus, nb=4)
-    ctx.obligation("corpus (known finding F4, regression programs of the repaired F3, F21, F23) ran", "error" not in rc)
+    ctx.obligation("corpus (known finding F4, regression programs of the repaired F3, F21, F23, F27, F28) ran", "error" not in rc)
     if "error" in rc:
         ctx.violation("corpus", rc["error"], found_input=False)
         ctx.write_evidence()
@@ -43,6 +45,24 @@ def run(ctx):
             reg_bad.append(c.name)
             ctx.violation("corpus-" + c.name, "C20 fails on a regression program (a repaired finding is back)\n" + PF.describe(c, o))
     ctx.obligation("regression programs of the repaired findings are reported", not reg_bad)
+
+    # Go-source regression programs (spellings outside MiniGo: method expressions, error variables of undecided nilness)
+    gd = os.path.join(common.VERIF, "corpus", "c20")
+    gr, gerr = wt.analyze(gd)
+    gbad = []
+    if gr is None:
+        gbad.append("the real tool failed on corpus/c20: %s" % gerr)
+    else:
+        ranges = wt.func_ranges(os.path.join(gd, "a", "a.go"))
+        hit = lambda lo, hi: [d for d in gr["diags"] or [] if d["file"].endswith("a.go") and lo <= d["line"] <= hi]
+        for fn, (lo, hi) in sorted(ranges.items()):
+            if fn.startswith("Bad") and not hit(lo, hi):
+                gbad.append("%s (corpus/c20/a/a.go:%d-%d) dereferences the result of a contracted function called with a possibly-nil argument (or of a function that must not get a contract) and is not reported" % (fn, lo, hi))
+            if fn.startswith("Ok") and hit(lo, hi):
+                gbad.append("%s (corpus/c20/a/a.go:%d-%d) is reported: %s" % (fn, lo, hi, hit(lo, hi)[0]["message"][:200]))
+    ctx.obligation("Go-source regression programs of the repaired findings F27, F28, F29 (corpus/c20): every Bad* function reported, no Ok* function reported", not gbad)
+    for m in gbad[:3]:
+        ctx.violation("gocorpus", "C20 fails on the real tool: %s\nreplay: bin/harness analyze -dir corpus/c20\n" % m)
 
     rng = random.Random(ctx.seed * 32452843 + 20)
     n = 400 if ctx.tier == "quick" else 6000
